@@ -422,7 +422,7 @@ fn gen_date_b(c: &mut Ctx) -> NaiveDate {
 }
 fn gen_time(c: &mut Ctx) -> NaiveTime {
     let secs = if c.rng.chance(1, 3) { c.rng.below(86400) as u32 } else { *c.rng.pick(SECS) };
-    let frac = if c.rng.chance(1, 4) { c.rng.below(2_000_000_000) as u32 } else { *c.rng.pick(FRACS) };
+    let frac = if c.rng.chance(1, 4) { c.rng.nanos() + if c.rng.chance(1, 2) { 1_000_000_000 } else { 0 } } else { *c.rng.pick(FRACS) };
     mk_time(secs, frac)
 }
 fn gen_off(c: &mut Ctx) -> FixedOffset {
